@@ -111,6 +111,54 @@ theorem discard_truncated (n : Int) (hn : 0 < n) (d : Array UInt8) (pos : Nat) (
   have h2 : ¬ pos + n.toNat ≤ d.size := by omega
   simp [P.bind, h1, h2]
 
+/-- the fallback as the C code runs it: blocks of at most 4096 bytes until nothing is left -/
+def discardLoop : Nat → P Unit
+  | 0 => P.pure ()
+  | n + 1 => fun d pos =>
+    let k := min (n + 1) 4096
+    match readN k d pos with
+    | .ok (_, pos') => discardLoop (n + 1 - k) d pos'
+    | .error e => .error e
+termination_by n => n
+decreasing_by omega
+
+theorem discard_pos (m : Nat) (hm : m ≠ 0) (d : Array UInt8) (pos : Nat) :
+    discard (m : Int) d pos = if pos + m ≤ d.size then .ok ((), pos + m) else .error (.st .io) := by
+  simp only [discard, P.bind, readN, Int.toNat_natCast, hm, if_false, P.pure]
+  by_cases hc : pos + m ≤ d.size <;> simp [hc]
+
+/-- dropping block by block is dropping at once: the same end position when the stream holds the
+    bytes, the same I/O error when it does not — whatever the block size and the distance
+    (in particular distances that are whole multiples of the block) -/
+theorem discardLoop_eq (n : Nat) (d : Array UInt8) (pos : Nat) :
+    discardLoop n d pos = discard (n : Int) d pos := by
+  induction n using Nat.strongRecOn generalizing pos with
+  | _ n ih =>
+    cases n with
+    | zero => simp [discardLoop, discard, readN, P.bind, P.pure]
+    | succ n =>
+      rw [discardLoop]
+      simp only
+      have hk1 : 0 < min (n + 1) 4096 := by omega
+      have hk2 : min (n + 1) 4096 ≤ n + 1 := by omega
+      generalize hk : min (n + 1) 4096 = k at hk1 hk2
+      rw [discard_pos (n + 1) (by omega)]
+      have hr : readN k d pos = if pos + k ≤ d.size then .ok ((d.extract pos (pos + k)).toList, pos + k) else .error (.st .io) := by
+        simp only [readN, show ¬ (k = 0) by omega, if_false]
+      rw [hr]
+      by_cases h1 : pos + k ≤ d.size
+      · simp only [h1, if_true]
+        rw [ih (n + 1 - k) (by omega) (pos + k)]
+        by_cases hz : n + 1 - k = 0
+        · have : k = n + 1 := by omega
+          subst this
+          simp [hz, discard, readN, P.bind, P.pure, h1]
+        · rw [discard_pos (n + 1 - k) hz]
+          have e : pos + k + (n + 1 - k) = pos + (n + 1) := by omega
+          rw [e]
+      · have h2 : ¬ pos + (n + 1) ≤ d.size := by omega
+        simp [h1, h2]
+
 /-- From the regenerated symbol table: stream positioning happens in one place only — all
     references to a positioning call (`fseek`, `fseeko`, `fsetpos`, `rewind`, `lseek`) come from a
     single object file (the one holding `sbdf_skip_bytes`, which falls back to reading), so no skip
